@@ -850,7 +850,7 @@ def run_sequences(ctx, seqs, gc_modes, model_ok, failures, broken, stats):
                 if answers == exp_present and uses_both_zero_signs(s):
                     failures.append(dict(detail, what="0 == -0 but the two zeros select different entries: %s gave %s, the ==-keyed map gives %s"
                                          % (ops_txt[j], answers[j], exp_true[j]), signature="neg-zero key", failing_input=True))
-                    stats["neg_zero_sequences"] += 1
+                    stats["neg_zero_sequences"] += 1 if mode == "default" else 0
                 elif answers == exp_present:
                     failures.append(dict(detail, what="== keys with different hashes select different entries: %s gave %s, the ==-keyed map gives %s"
                                          % (ops_txt[j], answers[j], exp_true[j]), signature="equal keys hash differently", failing_input=True))
@@ -939,8 +939,8 @@ def correspondence(ctx, model_ok=True):
     stats = {"evaluations": 0, "evaluations_gc_always": 0, "sequences": 0, "ops": {}, "unhashable": 0, "nan": 0, "enums": 0,
              "nontrivial": set(), "collisions": 0, "neg_zero_sequences": 0, "model_compared": 0, "outside_model_domain": 0}
     hashed = check_hash_transcription(model_ok, broken, failures)
-    # gc=always (a collection at every allocation) for every 5th sequence in the quick tier, for all in the thorough tier
-    modes = {"default": None, "always": (lambda i: True) if ctx.thorough else (lambda i: i % 5 == 0)}
+    # gc=always (a collection at every allocation) for every 2nd sequence in the quick tier, for all in the thorough tier
+    modes = {"default": None, "always": (lambda i: True) if ctx.thorough else (lambda i: i % 2 == 0)}
     progs_ = run_sequences(ctx, seqs, modes, model_ok, failures, broken, stats)
     if stats["unhashable"] == 0:
         broken.append("no unhashable-key rejection was exercised")
